@@ -11,7 +11,7 @@ import z3
 from symframe import regex_language
 
 T, F = z3.BoolVal(True), z3.BoolVal(False)
-PYT = {"int": int, "float": float, "str": str, "bool": bool}
+PYT = {"int": int, "float": float, "str": str, "bool": bool, "Int": "Int64"}
 
 
 def zand(xs):
